@@ -694,6 +694,32 @@ def gen_special(rng, hid, which):
             sc.advance(rng.choice([500, 2000]))
             sc.deliver([r_a(s.addr_owner, "192.168.1.%d" % rng.randrange(200, 250), 120)], 2, v4=True)   # a new address: resolved again
         return sc.finish(rng.choice([2500, 5000]))
+    if which == "stop-rebrowse":
+        # browse; only the PTR arrives; stop_browse inside the follow-up window (1.5 s); browse again
+        # at any later time; again only the PTR arrives: ServiceFound, and the follow-up question
+        # must come within 500 ms (a chain cancelled by stop_browse must not leave the instance
+        # "pending").  Variant: type and subtype share the instance, the type is stopped, the subtype
+        # stays browsed: its chain must go on.
+        shared = rng.random() < 0.3
+        sc = Scenario(rng, hid, True, [TY1, SUB1] if shared else [TY1])
+        s = Svc(rng, rng.choice(INST_LABELS), TY1, rng.choice(HOSTS), 2, sub=SUB1 if shared else None)
+        s.ttl_ptr = rng.choice([4500, 120])
+        sc.advance(100)
+        sc.deliver(s.recs("P"), 2, v4=True)
+        sc.advance(rng.choice([0, 100, 400, 600, 900, 1300]))
+        sc.pending_calls.append(sc.h.stop(TY1))
+        if shared and rng.random() < 0.5:
+            return sc.finish(3000)
+        gap = rng.choice([0, 0, 200, 800, 3000, 10000])
+        if gap:
+            sc.advance(gap)
+        sc.pending_calls.append(sc.h.browse(TY1))
+        sc.advance(rng.choice([50, 300, 1000]))
+        sc.deliver([r_ptr(TY1, s.inst, s.ttl_ptr)], 2, v4=True)
+        if rng.random() < 0.3:
+            sc.advance(rng.choice([700, 1200]))
+            sc.deliver(s.recs("STA"), 2, v4=True)
+        return sc.finish(3000)
     if which == "browse-expiring":
         # browse starts while a cached PTR record of the type is in its last second (finding
         # C04-browse-over-expiring-ptr), or shortly before that (control: must pass).  The PTR gets
